@@ -50,3 +50,39 @@ Definition chk_run (c : (bool * (opts * ((option (nat * xcls) * option nat) * (b
   let m := if whole then run prog W (mkcfg o) (lit "initialize") [VStr (lit "pygopherd.conf")]
            else run prog W (mkcfg o) (lit "init_security") [VSym (lit "config")] in
   out_ok st o m i.
+
+(* ---- the `servertype` dimension and the end state of the RETURNED server ----
+   The IR has one configuration (the state's cfg): `self.config = config` in the
+   server constructor makes the server read the very object init_security writes
+   to.  The implementation reports the root option it finds in the configuration
+   of the server object that initialize() returned; it must be what the model's
+   configuration holds when the run ends — the value of the last
+   config.set("pygopherd", "root", v) of the run, else the configured root. *)
+Fixpoint last_root (acc : str) (tr : list effect) : str :=
+  match tr with
+  | [] => acc
+  | e :: r =>
+      last_root (match eargs e with
+                 | [s; o; v] => if str_eqb (ename e) (lit "config.set") && str_eqb s PG && str_eqb o (lit "root")
+                                then v else acc
+                 | _ => acc
+                 end) r
+  end.
+
+Definition served_ok (whole : bool) (m : outcome) (served : option str) : bool :=
+  match m, served with
+  | Running t, Some r => whole && str_eqb r (last_root ROOT t)
+  | Running _, None => negb whole
+  | _, None => true
+  | _, Some _ => false
+  end.
+
+(* ((servertype in the file, root in the configuration of the returned server), case of chk_run) *)
+Definition chk_run2 (c : (str * option str) *
+                         ((bool * (opts * ((option (nat * xcls) * option nat) * (bool * start)))) * impl_out)) : bool :=
+  let '((stype, served), ((whole, (o, ((f, span), (parent, st)))), i)) := c in
+  let W := World f ((lit "os.fork", if parent then VInt 4242 else VInt 0) :: start_results st o) span in
+  let c0 := cfg_set (PG, lit "servertype") stype (mkcfg o) in
+  let m := if whole then run prog W c0 (lit "initialize") [VStr (lit "pygopherd.conf")]
+           else run prog W c0 (lit "init_security") [VSym (lit "config")] in
+  out_ok st o m i && served_ok whole m served.
